@@ -1,6 +1,7 @@
 P = dict(
     harness='c17_ptrplugins.cpp',
-    variants=dict(quick=['asan'], thorough=['asan', 'asan-noexc']),
+    variants=dict(quick=['asan', 'memcheck'], thorough=['asan', 'asan-noexc', 'memcheck']),
+    memcheck_stride=dict(quick=40, thorough=40),
     level='exploration',
     technique='runtime monitoring: generated programs (plugin-chain operations interleaved with scripted tests doing 0..36 UT_PTR_SETs over 8 typed targets, '
               'ending by pass / FAIL / CHECK / FAIL_TEXT_C / CHECK_C / throw) run over a private TestRegistry and through CommandLineTestRunner::runAllTestsMain; '
